@@ -124,8 +124,8 @@ def run(rep, repo, tier):
     viol, stats = T.explore(wt.table, wt.init, rt)
     rep.extra['states'] = stats['product_states']
     rep.extra['transitions'] = stats['transitions']
-    rep.extra['writer_table'] = {str(k): str(v) for k, v in sorted(wt.table.items())}
-    rep.extra['reader_table'] = {str(k): str(v) for k, v in sorted(rt.table.items())}
+    rep.extra['writer_table'] = {str(k): str(v) for k, v in sorted(wt.table.items(), key=str)}
+    rep.extra['reader_table'] = {str(k): str(v) for k, v in sorted(rt.table.items(), key=str)}
     seen = set()
     for kind, msg, tr in viol:
         key = (kind, msg)
